@@ -304,8 +304,8 @@ def search_rename(ctx: Ctx) -> SearchResult:
 			for a_name in mapping:
 				hist[f'kind:{domain[a_name]}'] += 1
 			r = check_pair(real, src, mapping, base)
-			if isinstance(r, tuple) and len(res.findings) >= 3:
-				hist['violations-not-shrunk(3 findings already reported)'] += 1
+			if isinstance(r, tuple) and len(res.findings) >= ctx.scale(2, 3):
+				hist['violations-not-shrunk(findings already reported)'] += 1
 			elif isinstance(r, tuple):
 				# history independence of the verdict: confirm on a fresh App before reporting
 				again = Real(ctx)
@@ -505,7 +505,10 @@ def stream_real(ctx: Ctx) -> Stream:
 			nodes = module.entrypoint.procedural()
 		except Exception:  # noqa: BLE001
 			continue
-		ops = [f'libs\t{hl(libs)}', *table_ops(db)]
+		try:
+			ops = [f'libs\t{hl(libs)}', *table_ops(db)]
+		except Exception:  # noqa: BLE001 - a program the real pipeline cannot type (lazy resolution raises): not a scope case
+			continue
 		outs = ['ok'] * len(ops)
 		plain = [n for n in nodes if not isinstance(n, defs.Entrypoint)]
 		sample = plain if len(plain) <= ctx.scale(120, 400) else rng.sample(plain, ctx.scale(120, 400))
@@ -1063,25 +1066,32 @@ STATEMENTS = {
 	'initializer_call_callee': 'Py2Cpp.is_initializer_call accepts only <type>( … ) whose text before the last top-level block IS the type: a callee that merely begins with the type name (Widget_build, int_of) is rejected',
 	'initializer_call_prefix_counterexample': 'REGRESSION (seeded mutation): the prefix test without its ( accepts Widget_build(2) for the type Widget',
 	'fragment_class_var_name': "pluck_class_var_name('<type> <name> = …') = name for a blank-free type",
+	'regex_identifier_closed': 'in every pattern of PatternParser / CppViewHelper (generated from the source on this run) every character test other than a fixed literal treats all identifier characters [A-Za-z0-9_] alike',
+	'regex_charmap_invariant': 'for every generated pattern and EVERY text: fullmatch gives the same spans and groups on the text and on the text with its identifier characters permuted by any map fixing the identifier characters the pattern spells out',
+	'site_table_no_defect': 'the generated table of all 132 string-comparison sites (ast scan, audited verdicts) contains no defective site (the two startswith(\'const\') sites were repaired in 448468e; the old fact is kept as a regression example over a literal table)',
 	'equivariant': 'bundle of the equivariant_* theorems for an injective renaming that fixes the reserved words',
 	'string_refines': 'bundle of the string_refines_* theorems for well-formed names',
 }
 
 
 def run(ctx: Ctx) -> int:
+	with ctx.timed('translate'):
+		translate_ok, translate_msg = translate(ctx)
 	proof = common.prove(ctx, PROP, leanchecker=ctx.thorough)
 	with ctx.timed('correspondence'):
-		streams = [stream_dsn(ctx), stream_real(ctx), stream_synth(ctx), stream_merge(ctx), stream_naming(ctx), stream_fragments(ctx)]
+		streams = [stream_dsn(ctx), stream_real(ctx), stream_synth(ctx), stream_merge(ctx), stream_naming(ctx), stream_fragments(ctx), stream_regex(ctx)]
 	with ctx.timed('search'):
 		searches = [search_rename(ctx), search_sibling_scopes(ctx), search_symtable(ctx), search_fragments(ctx)]
 	return common.finish(ctx, proof, streams, searches,
+		translate_ok=translate_ok, translate_msg=translate_msg,
 		statements=STATEMENTS,
 		partial={
 			'proved': 'name resolution, scope construction, fullyname/scope/namespace and declaration merging are equivariant under injective renamings (abstract layer); '
 				'the string layer refines the abstract layer for identifier names for every modelled function, including VarsCollector._merged as repaired in 526fc7c',
 			'correspondence_only': 'that the two model layers are what the Python does (streams dsn, scope-real, scope-synth, merge)',
 			'search_only': 'the whole-pipeline law transpile(r(P)) == r(transpile(P)) incl. templates and the regex/string post-processing of py2cpp.py:1679-1836, symbol keys, inferred type strings',
-			'not_modelled': 'the handler-less ClassDomainNaming.__namespace only on the string layer (dead from Py2Cpp); ListSortKeyPattern, cpp_view_helper regexes and the templates: search only; BlockParser: property C18',
+			'not_modelled': 'the handler-less ClassDomainNaming.__namespace only on the string layer (dead from Py2Cpp); the CppViewHelper functions around their regexes (only the patterns themselves are generated + matched by the modelled engine) and the templates: search only; BlockParser: property C18',
+			'generated': 'Generated/C08Regex.lean (15 compiled patterns, via re._parser) and Generated/C08Sites.lean (132 comparison sites, ast scan vs translate/c08_sites_audited.json) are rewritten from the source on every run',
 		},
 		assumptions=[
 			'names are non-empty strings without "." and "#" (every Python identifier; tranp scope words like if@115); module paths are non-empty without "#"',
@@ -1338,6 +1348,85 @@ def _namespace_no_handler(types: Any) -> str:
 	"""`ClassDomainNaming.__namespace(types, None, None)` through the name-mangled private classmethod."""
 	from rogw.tranp.semantics.reflection.helper.naming import ClassDomainNaming
 	return ClassDomainNaming._ClassDomainNaming__namespace(types, None, None)
+
+
+REGEX_TEXTS = {
+	'PatternParser.RelayPattern': ['a.b', 'a->b', 'a::b', 'x.y->z', 'a', '.b', 'a.', 'a.b()', 'a\n.b', 'a:b', 'self->on'],
+	'PatternParser.ListSortKeyPattern': ['[](Entry entry) -> Any { return entry.value; }', '[&](const Box& b) -> int { return b->n; }', '[](A a) { return a; }', '[](A a) -> int { return a.x }'],
+	'PatternParser.DictIteratorPattern': ['d.items()', 'p->keys()', 'a.b.values()', 'd::items()', 'items()', 'd.items', 'd.items()\n'],
+	'PatternParser.DeclClassVarNamePattern': ['int n = 0;', 'inline static int n = 0;', 'std::map<std::string, int> m = {};', 'n=0', ' n = 1', 'int n= 0', 'int  n_2  =  x = y'],
+	'PatternParser.CVarRelaySubPattern': ['p.on()', 'p->on()', 'p::on()', 'p.xon()', 'p.on', 'on()', 'p.on()\n', 'p.on().on()'],
+	'PatternParser.CVarToSubPattern': ['p.raw()', 'p->ref()', 'p.addr()', 'p.draw()', 'p.const()', 'p.raws()', 'p.shared()\n', 'a.weak().raw()'],
+	'CppViewHelper.SuperInitializer.SuperCall': ['Base::__init__(1, 2);', 'Base_2::__init__();', 'a.Base::__init__(x);', 'Base::__init__(a; b);', 'Base::__init__(1)', 'Base::__init__(1);\n', '::__init__(1);'],
+	'CppViewHelper.Initializer.MoveAssign': ['int this->n = 1;', 'std::string this->s_2 = a + b;', 'this->n = 1;', 'int this->n = 1', 'int  this->n  =  f(x);', 'int this->n = a; b;'],
+	'CppViewHelper.Initializer.Initializer': ['Box this->b{1, 2};', 'Box this->b{};', 'Box this->b{a; b};', 'Box this->b {1};'],
+	'CppViewHelper.Initializer.Empty': ['int this->n;', 'Box::Item this->item_1;', 'int this->n = 1;', 'this->n;'],
+	'CppViewHelper.Param.VarType': ['const int& n', 'int* p', 'std::string s', 'const  Box::Item&', 'int', '*p', 'constant c', 'Box<int>&'],
+	'CppViewHelper.VarType.PatternVarType': ['std::vector<int>', 'Box::Item*', 'const A', '<x>', 'a_b:c d', ''],
+	'CppViewHelper.Method.PatternFor': ['for (auto i = 0; i < this->xs.size(); i++) {', 'for (auto i_2 = 0; i_2 < n; i_2 += 1) {', 'for (;;) {', 'for (auto i = 0; i < n; i++) {}'],
+	'CppViewHelper.Method.PatternYield': ['\treturn this->xs[i];', '  return x;', 'return x;', '\treturn a; b;', '\n\treturn f(1);'],
+	'CppViewHelper.Method.PatternIterates': ['this->xs[i]', 'a + this->b_2.c', 'that->x', 'this->', 'this->x this->y'],
+}
+
+
+def stream_regex(ctx: Ctx) -> Stream:
+	"""CPython's `re` on the REAL compiled patterns vs the Lean matcher on the GENERATED patterns (fullmatch, search, sub)."""
+	from translate import gen_c08_regex
+	rng = ctx.sub_rng('regex')
+	pats = gen_c08_regex.collect()
+	cases = []
+	alphabet = 'ab_1.:->()[]{};= \t\nxon&*<,'
+
+	def show(m: Any) -> str:
+		if m is None:
+			return 'none'
+		return f'ok {m.start()}:{m.end()} ' + '|'.join('~' if g is None else hx(g) for g in m.groups())
+
+	for name in sorted(pats):
+		p = pats[name]
+		texts = list(REGEX_TEXTS.get(name, []))
+		for base in list(texts):
+			for _ in range(ctx.scale(3, 30)):
+				t = list(base)
+				for _ in range(rng.randint(1, 3)):
+					k = rng.random()
+					pos = rng.randrange(len(t) + 1)
+					if k < 0.4 and t:
+						t[min(pos, len(t) - 1)] = rng.choice(alphabet)
+					elif k < 0.7:
+						t.insert(pos, rng.choice(alphabet))
+					elif t:
+						del t[min(pos, len(t) - 1)]
+				texts.append(''.join(t))
+		for _ in range(ctx.scale(10, 100)):
+			texts.append(''.join(rng.choice(alphabet) for _ in range(rng.randint(0, 12))))
+		ops, outs = [], []
+		for t in texts:
+			ops.append(f're.fullmatch\t{name}\t{hx(t)}')
+			outs.append(show(p.fullmatch(t)))
+			ops.append(f're.search\t{name}\t{hx(t)}')
+			outs.append(show(p.search(t)))
+			ops.append(f're.sub\t{name}\t{hx(t)}')
+			outs.append(hx(p.sub('', t)))
+		cases.append(({'pattern': name}, ops, outs))
+	st = common.correspond('regex', cases, 'scope', classify=lambda d: d['pattern'].split('.')[0])
+	st.note = f'{len(pats)} compiled patterns of PatternParser / CppViewHelper (translated to Generated/C08Regex.lean on this run): fullmatch / search / sub(\'\') with spans and groups on hand-picked rendered statements, their mutations and random strings over a punctuation-heavy alphabet'
+	return st
+
+
+def translate(ctx: Ctx) -> tuple[bool, str]:
+	"""Regenerate the C08 tables from the source; a translator that no longer understands its input breaks the tie."""
+	msgs = []
+	ok = True
+	for modname in ('gen_c08_regex', 'gen_c08_sites'):
+		try:
+			mod = __import__(f'translate.{modname}', fromlist=['generate'])
+			for rec in mod.generate():
+				ctx.generated_tables.append(rec)
+		except Exception as e:  # noqa: BLE001
+			ok = False
+			msgs.append(f'{modname}: {type(e).__name__}: {e}')
+	return ok, '; '.join(msgs)
 
 
 FRAG_WORDS = ['on', 'xon', 'on_', 'raw', 'raws', 'draw', 'ref', 'addr', 'weak', 'shared', 'const', 'items', 'keys', 'values', 'item', 'ab', 'abc', 'a__b', 'n', 'Box', 'BoxItem', 'self', 'this', 'x1', '_p']
